@@ -60,6 +60,9 @@ pub enum Illegal {
     /// 4 tuple, 5 array, 6 function type, 10 Vec[foreign struct], 11 unit), or an inherent impl
     /// for a type that is not the package's own (7 Vec[int32], 8 int32, 9 foreign struct)
     OrphanImplBuiltin(u8),
+    /// like NotImportedInThisFile(1|2), and the package also has an own item (a struct) with the
+    /// very name of the package that the file fails to import
+    NotImportedInThisFileShadowed(u8),
     /// the same impl twice where trait or type belongs to another package (0 = foreign trait for
     /// an own type, both in one file; 1 = the same in two files; 2 = own trait for a foreign type)
     DuplicateImplForeign(u8),
@@ -87,7 +90,7 @@ pub enum Via {
     StructPattern,
 }
 
-pub const ILLEGAL_KINDS: [Illegal; 44] = [
+pub const ILLEGAL_KINDS: [Illegal; 46] = [
     Illegal::NotImported,
     Illegal::NotImportedVia(Via::SignatureType),
     Illegal::NotImportedVia(Via::LetAnnotation),
@@ -132,6 +135,8 @@ pub const ILLEGAL_KINDS: [Illegal; 44] = [
     Illegal::DuplicateImplForeign(0),
     Illegal::DuplicateImplForeign(1),
     Illegal::DuplicateImplForeign(2),
+    Illegal::NotImportedInThisFileShadowed(1),
+    Illegal::NotImportedInThisFileShadowed(2),
 ];
 
 fn reaches(proj: &Project, from: usize, to: usize) -> bool {
@@ -337,6 +342,22 @@ pub fn inject(proj: &Project, kind: &Illegal, p: &mut Prng) -> Option<(Files, Fi
                 "\nimpl {q}::ZzT for {r}::ZzG[ZzL] {{\n    fn zz(self: {r}::ZzG[ZzL]) -> int32 {{\n        1\n    }}\n}}\n"
             ));
             desc = format!("{} implements foreign trait {q}::ZzT for foreign generic type {r}::ZzG instantiated at its own type ZzL", proj.pkgs[pi].name);
+        }
+        Illegal::NotImportedInThisFileShadowed(form) => {
+            let (t, b, d) = inject(proj, &Illegal::NotImportedInThisFile(*form), p)?;
+            // which package fails to be imported, and by whom? recover it from the description
+            let pi = (0..n).find(|pi| d.contains(&format!("the last file of {} uses", proj.pkgs[*pi].name)))?;
+            let qn = proj.pkgs[pi].imports.iter().map(|q| proj.pkgs[*q].name.clone()).find(|qn| d.contains(&format!("uses {qn} (form")))?;
+            let first = proj.pkg_files(pi).first()?.clone();
+            let add = format!("\nstruct {qn} {{\n    zzx: int32,\n}}\n");
+            let mut t2 = t.clone();
+            let mut b2 = b.clone();
+            for fs in [&mut t2, &mut b2] {
+                let mut text = String::from_utf8_lossy(fs.get(&first)?).to_string();
+                text.push_str(&add);
+                fs.insert(first.clone(), text.into_bytes());
+            }
+            return Some((t2, b2, format!("{d}; the package also defines a struct named {qn}")));
         }
         Illegal::NotImportedInThisFile(form) => {
             let mut cands = Vec::new();
